@@ -27,3 +27,7 @@ echo -n "helper-fn function map decoder + break: "; $C $N/E1.diff hermes.rs '   
             }' '            if mapping.is_empty() {
                 break;
             }'
+echo -n "&mut-helper serialize_mappings + wrong previous-value variable: "; $C $N/J3.diff encoder.rs 'encode_vlq_delta(&mut rv, token.get_src_line(), &mut prev_src_line);' 'encode_vlq_delta(&mut rv, token.get_src_line(), &mut prev_src_col);'
+echo -n "&mut-helper serialize_mappings + conditional update of the previous value: "; $C $N/J3.diff encoder.rs '    *prev = value;
+' '    if value != 0 { *prev = value; }
+'
